@@ -225,7 +225,7 @@ def theorem_domain(ctx):
 
 KEYWISE_THEOREMS = ['Nbdime.C06_model_keywise', 'Nbdime.C06_model_different_keys', 'Nbdime.apply_keywise_obj', 'Nbdime.C09_model_keywise_all',
                     'Nbdime.C06_model_cells', 'Nbdime.C06_notebook_cells', 'Nbdime.apply_cells_only', 'Nbdime.C09_model_cells_choose',
-                    'Nbdime.C06_model_mixed', 'Nbdime.C06_notebook_mixed', 'Nbdime.apply_mixed_obj', 'Nbdime.mixed_two_stage']
+                    'Nbdime.C06_model_mixed', 'Nbdime.C06_notebook_mixed', 'Nbdime.apply_mixed_obj', 'Nbdime.mixed_two_stage', 'Nbdime.C06_model_mixed_all']
 THEOREMS.extend(t for t in KEYWISE_THEOREMS if t not in THEOREMS)
 
 
